@@ -251,6 +251,11 @@ def status_default_only(ctx, st, key, src, ver, dmsgs, nmsgs, gates, detail) -> 
                 "indentation that mixes tabs and spaces: the default front end (CPython's tokenizer, tab = next multiple of 8) blocks with %r, "
                 "the native front end measures it differently and accepts the file" % texts[0], detail)
         return
+    if texts and all(re.search(r"[Ee]xpected 'except' or 'finally' block", t) for t in texts):
+        _report(ctx, st, {"class": "native-accepts-try-else-without-except"},
+                "`try: … else: … finally: …` without an `except` clause: CPython (default front end) blocks with %r, the native front end accepts "
+                "the statement and type-checks it" % texts[0], detail)
+        return
     if texts and all("Expected string literal for argument name, got" in t for t in texts):
         _report(ctx, st, {"class": "native-no-argument-name-literal-check"},
                 "`Callable[[Arg(int, 0)], int]`: the default front end's TypeConverter blocks with %r; the native reader "
@@ -444,6 +449,13 @@ def line_attribution(lines, src: str, a, b):
         if mod is None or (mod.split(".")[0] in la and mod.split(".")[0] in lb):
             return {"class": "repeated-missing-import-line-attribution"}, what + \
                 " — the module is imported on both lines; the one-per-module import error lands on a different occurrence"
+    sp = statement_spans(src)
+    if sp is not None:
+        lo_, hi_ = min(a[0], b[0]), max(a[0], b[0])
+        inner = [x for x in sp if x[0] <= lo_ and hi_ <= x[1]]
+        if inner and min(inner, key=lambda x: x[1] - x[0])[2]:
+            return {"class": "multi-line-expression-line-attribution"}, what + \
+                " — one expression spanning several lines: a nested operation is attributed to a different physical line"
     ctx_ = type_contexts(src)
     if ctx_ is not None and a[0] < b[0]:
         for lo, hi in ctx_[0]:
@@ -516,6 +528,28 @@ def type_contexts(src: str):
     return _TYPE_CTX_CACHE[src]
 
 
+_STMT_CACHE: dict = {}
+
+
+def statement_spans(src: str):
+    """[(first line, last line, True)] of every multi-line *expression* of the host ast; None if unparsable."""
+    if src in _STMT_CACHE:
+        return _STMT_CACHE[src]
+    try:
+        with warnings.catch_warnings():
+            warnings.simplefilter("ignore")
+            tree = ast.parse(src)
+    except (SyntaxError, ValueError, RecursionError):
+        _STMT_CACHE[src] = None
+        return None
+    out = [(n.lineno, n.end_lineno, True) for n in ast.walk(tree)
+           if isinstance(n, ast.expr) and n.end_lineno is not None and n.end_lineno > n.lineno]
+    if len(_STMT_CACHE) > 64:
+        _STMT_CACHE.clear()
+    _STMT_CACHE[src] = out
+    return out
+
+
 def no_end_reason(src: str, line: int, col: int) -> str | None:
     """Why the default front end has no end position at (line, 0-based column): the two node kinds whose
     converters (TypeConverter; visit_Lambda) set line and column only."""
@@ -530,7 +564,11 @@ def no_end_reason(src: str, line: int, col: int) -> str | None:
     return None
 
 
+_STRING_LIT = re.compile(r"""(?:[rRbBuUfF]{0,2})(?:\'\'\'.*?\'\'\'|\"\"\".*?\"\"\"|'(?:[^'\\\n]|\\.)*'|"(?:[^"\\\n]|\\.)*")""", re.S)
+
+
 def _balanced(text: str) -> bool:
+    text = _STRING_LIT.sub("''", text)       # brackets inside string literals do not nest
     depth = 0
     for ch in text:
         if ch in "([{":
@@ -542,7 +580,7 @@ def _balanced(text: str) -> bool:
     return depth == 0
 
 
-def _start_mechanisms(line: str, a, b) -> list[str] | None:
+def _start_mechanisms(line: str, a, b, src_type_ctx=None) -> list[str] | None:
     """why the start columns of default (a) and native (b) differ; None = unexplained, [] = equal"""
     if a[1] == b[1]:
         return []
@@ -564,6 +602,10 @@ def _start_mechanisms(line: str, a, b) -> list[str] | None:
         return ["except-as-name-column"]
     if line[max(0, hi - 2):hi] == "**":
         return ["mapping-pattern-rest-column"]
+    if stripped.startswith("except") and lo == len(line) - len(stripped) and re.match(r"^except\*?\s+\(?$", between):
+        return ["except-type-expression-column"]
+    if line[hi:hi + 3].lstrip("rRuUbBfF")[:1] in ("'", '"') and src_type_ctx is not None and src_type_ctx(hi):
+        return ["quoted-annotation-start-column"]
     if between == "*" and stripped.startswith("case"):
         return ["starred-pattern-name-column"]
     if stripped.startswith("case") and re.search(r"\bas\s+$", line[:hi]) and lo >= len(line) - len(stripped):
@@ -590,6 +632,8 @@ def _end_mechanisms(lines, line: str, a, b, start: list[str], src: str = "") -> 
         return []
     if None in (a[2], a[3], b[2], b[3]):
         return None
+    if "except-type-expression-column" in start or "quoted-annotation-start-column" in start:
+        return []            # keyword (no end) vs the expression; inside-the-string columns vs source columns
     if ("except-as-name-column" in start or "mapping-pattern-rest-column" in start or "as-pattern-name-column" in start) \
             and (b[2], b[3]) <= (a[2], a[3]):
         return []            # whole construct vs the name inside it
@@ -620,6 +664,8 @@ EXPLAIN = {
     "mapping-pattern-rest-column": "`**rest` of a mapping pattern: pattern vs name",
     "quoted-annotation-end-position": "a string-quoted type: the default front end measures the end inside the string",
     "non-ascii-column-units": "the line contains non-ASCII characters before the position (bytes vs characters)",
+    "except-type-expression-column": "error about the exception type of an `except T:` clause: keyword vs expression",
+    "quoted-annotation-start-column": "a string-quoted type: the default front end reports columns measured inside the string's own parse",
     "starred-pattern-name-column": "error about the name bound by `*name` in a sequence pattern: star vs name",
     "as-pattern-name-column": "error about the name bound by `case P as name`: pattern vs name",
     "elif-statement-start-column": "the statement of an `elif` branch starts at the keyword (default) vs at its condition (native)",
@@ -647,7 +693,10 @@ def position_pair(lines, a, b, src: str = "") -> list[tuple[dict, str]]:
         return [({"class": "non-ascii-column-units"}, what + " — " + EXPLAIN["non-ascii-column-units"])]
     if a[1] is None or b[1] is None:
         return [({"class": "diagnostics-differ", "kind": "position"}, what)]
-    sm = _start_mechanisms(line, a, b)
+    def in_type_ctx(col: int) -> bool:
+        tc = type_contexts(src)
+        return tc is not None and any(lo <= (a[0], col) < hi for lo, hi in tc[0])
+    sm = _start_mechanisms(line, a, b, in_type_ctx)
     em = _end_mechanisms(lines, line, a, b, sm or [], src) if sm is not None else None
     if sm is None or em is None:
         return [({"class": "diagnostics-differ", "kind": "start-position" if sm is None else "end-position"}, what)]
@@ -671,6 +720,9 @@ def leftover_line(lines, ln, ds, ns, src) -> tuple[dict, str]:
     if len(ds) == len(ns) and ds and all(re.match(r'Name "\w+" is not defined', t) for t in dt) and \
             all(t == "Invalid type comment or annotation  [valid-type]" for t in nt) and re.search(r"""['"]\w+['"]\s*\[""", line):
         return {"class": "subscripted-string-annotation-message"}, what + " — a string literal subscripted inside an annotation"
+    if len(ds) == len(ns) and ds and all(re.match(r'Name "(None|True|False|\d[\w.]*)\.\w+" is not defined', t) for t in dt) and \
+            all(t == "Invalid type comment or annotation  [valid-type]" for t in nt):
+        return {"class": "attribute-of-constant-in-annotation-message"}, what + " — an attribute of a constant inside an annotation"
     if ds and all(t.startswith("Type variable must have at least two constrained types") for t in dt) and not ns:
         return {"class": "native-no-constrained-types-count-check", "root": True}, what
     dunder = re.compile(r'Unexpected keyword argument "(__\w*[A-Za-z0-9])" for ')
